@@ -1042,16 +1042,6 @@ theorem blobFold_lookup_perm (bs : List (String × INode))
       have := key qs' qs hp.symm hq' n' hl'
       rw [hl] at this; cases this
 
-theorem ingest_children_nc (nm : List Desc → String) (order : List (String × List Desc) → List (String × List Desc))
-    (x : IState) (h : x.converted = false) :
-    (ingest nm order x).index.children =
-      (childScan (convState nm order x).blobs
-        { queue := (pass1 x.index.manifests).scan, seen := (pass1 x.index.manifests).seen,
-          children := ((phase1 x).rm.foldl rmDesc (convState nm order x).index).children }).children := by
-  unfold ingest
-  simp only [h]
-  rfl
-
 theorem regenPairs_keys (nm : List Desc → String) (x : IState) (L : List (String × List Desc)) :
     (regenPairs nm x L).map (·.1) = L.map (·.1) := by
   unfold regenPairs; rw [List.map_map]; rfl
@@ -1104,25 +1094,24 @@ theorem convState_spec (nm : List Desc → String) (order : List (String × List
       · exact Or.inl ⟨p, hperm.mem_iff.mpr hp, h⟩
       · exact Or.inr ⟨e, he, h1, fun p hp => h2 p (hperm.mem_iff.mp hp)⟩
 
-/-- C17 under every iteration order of the Go map: the observations agree, and so do the recorded children -/
+/-- C17 under every iteration order of the Go map: the observations agree -/
 theorem convert_order_indep_main (nm : List Desc → String)
     (order order' : List (String × List Desc) → List (String × List Desc))
     (horder : ∀ l, (order l).Perm l) (horder' : ∀ l, (order' l).Perm l) (x : IState)
     (hnb : NoBoth x.index.manifests) (hch : x.index.children = []) (hne : lookup x.blobs "" = none)
     (hrp : RespPresent x.blobs (pass1 x.index.manifests).respOf) (hnm : NoCollision nm x) :
-    ObsEq (ingest nm order x) (ingest nm order' x) ∧
-    (ingest nm order x).index.children = (ingest nm order' x).index.children := by
+    ObsEq (ingest nm order x) (ingest nm order' x) := by
   cases hc : x.converted with
   | true =>
     have : ingest nm order x = ingest nm order' x := by unfold ingest; simp only [hc, if_true]
-    rw [this]; exact ⟨ObsEq.refl _, rfl⟩
+    rw [this]; exact ObsEq.refl _
   | false =>
     have inv := phase1_invA x hnb hch
     obtain ⟨a1, a2, a3, a4, a5, a6⟩ := convState_spec nm order horder x hnb hch hrp
     obtain ⟨b1, b2, b3, b4, b5, b6⟩ := convState_spec nm order' horder' x hnb hch hrp
     have hok := rmOk_of_invA inv hne
-    obtain ⟨m1, m2, m3, _, _, _, m7⟩ := rmFold_spec (phase1 x).rm _ hok a1
-    obtain ⟨n1, n2, n3, _, _, _, n7⟩ := rmFold_spec (phase1 x).rm _ hok b1
+    obtain ⟨m1, m2, m3, _, _, _, _⟩ := rmFold_spec (phase1 x).rm _ hok a1
+    obtain ⟨n1, n2, n3, _, _, _, _⟩ := rmFold_spec (phase1 x).rm _ hok b1
     have hblobs : ∀ g, lookup (convState nm order x).blobs g = lookup (convState nm order' x).blobs g := by
       intro g
       rw [a6 g, b6 g]
@@ -1140,7 +1129,6 @@ theorem convert_order_indep_main (nm : List Desc → String)
       · rintro ⟨e, he, hn, h1, h2⟩
         have htag : e.ann.tag ≠ "" := by rw [h1]; exact ht
         exact ⟨e, (a3 e hn htag).mpr ((b3 e hn htag).mp he), hn, h1, h2⟩
-    constructor
     · refine ⟨by rw [ingest_converted_true, ingest_converted_true], ?_, ?_, ?_, ?_⟩
       · intro t g ht
         unfold HasTag
@@ -1168,8 +1156,6 @@ theorem convert_order_indep_main (nm : List Desc → String)
       · intro g
         rw [ingest_blobs_nc nm order x hc, ingest_blobs_nc nm order' x hc]
         exact hblobs g
-    · rw [ingest_children_nc nm order x hc, ingest_children_nc nm order' x hc, m7, n7, a2, b2]
-      rw [childScan_congr hblobs]
 
 /-! ## exactly the referrers of the fallback indexes and of the old response -/
 
@@ -1750,4 +1736,165 @@ theorem convert_interrupted_main (nm : List Desc → String)
       | some n =>
         have := key2 n hl2
         rw [hl] at this; cases this
+
+/-! ## the recorded children after a conversion are those a reload computes (repair F33) -/
+
+/-- two states of the child scan that differ in the annotations of the queued descriptors and in a prefix `c0` of
+    the children recorded so far -/
+def ScanRel (c0 : List Desc) (a a' : Scan) : Prop :=
+  a'.seen = a.seen ∧ a'.queue.map (·.dig) = a.queue.map (·.dig) ∧ a.children = c0 ++ a'.children
+
+theorem kidStep_rel (c0 : List Desc) (a a' : Scan) (h : ScanRel c0 a a') (k : Desc) :
+    ScanRel c0 (kidStep a k) (kidStep a' k) := by
+  obtain ⟨h1, h2, h3⟩ := h
+  unfold kidStep
+  rw [h1]
+  cases hc : a.seen.contains k.dig
+  · simp only [Bool.false_eq_true, if_false]
+    refine ⟨rfl, ?_, by simp only; rw [h3, List.append_assoc]⟩
+    cases hm : isIndexMt k.mt
+    · simp only [Bool.false_eq_true, if_false]; exact h2
+    · simp only [if_true, List.map_append, h2]
+  · simp only [if_true]; exact ⟨h1, h2, h3⟩
+
+theorem kids_rel (c0 : List Desc) : ∀ (kids : List Desc) (a a' : Scan), ScanRel c0 a a' →
+    ScanRel c0 (kids.foldl kidStep a) (kids.foldl kidStep a') := by
+  intro kids
+  induction kids with
+  | nil => intro a a' h; exact h
+  | cons k ks ih => intro a a' h; simp only [List.foldl_cons]; exact ih _ _ (kidStep_rel c0 a a' h k)
+
+theorem scanIter_rel (bs : List (String × INode)) (c0 : List Desc) (a a' : Scan) (h : ScanRel c0 a a') :
+    (scanIter bs a = none ∧ scanIter bs a' = none ∧ a'.queue = []) ∨
+    (∃ a1 a1', scanIter bs a = some a1 ∧ scanIter bs a' = some a1' ∧ ScanRel c0 a1 a1') := by
+  obtain ⟨h1, h2, h3⟩ := h
+  unfold scanIter
+  cases hq : a.queue with
+  | nil =>
+    rw [hq] at h2
+    have hq' : a'.queue = [] := by simpa using h2
+    left; rw [hq']; exact ⟨rfl, rfl, rfl⟩
+  | cons c rest =>
+    rw [hq] at h2
+    cases hq' : a'.queue with
+    | nil => rw [hq'] at h2; simp at h2
+    | cons c' rest' =>
+      rw [hq'] at h2
+      simp only [List.map_cons, List.cons.injEq] at h2
+      right
+      simp only
+      rw [h2.1]
+      have hrel : ScanRel c0 { a with queue := rest } { a' with queue := rest' } := ⟨h1, h2.2, h3⟩
+      cases hg : getIndex bs c.dig with
+      | none => exact ⟨_, _, rfl, rfl, hrel⟩
+      | some o =>
+        cases o with
+        | none => exact ⟨_, _, rfl, rfl, hrel⟩
+        | some kids => exact ⟨_, _, rfl, rfl, kids_rel c0 kids _ _ hrel⟩
+
+theorem childScan_rel (bs : List (String × INode)) (c0 : List Desc) (a a' : Scan) (h : ScanRel c0 a a') :
+    (childScan bs a).children = c0 ++ (childScan bs a').children := by
+  fun_induction childScan bs a generalizing a' with
+  | case1 a hnone =>
+    rcases scanIter_rel bs c0 a a' h with ⟨_, h2, _⟩ | ⟨a1, _, h1, _, _⟩
+    · have : childScan bs a' = a' := by rw [childScan]; split <;> simp_all
+      rw [this]; exact h.2.2
+    · rw [hnone] at h1; cases h1
+  | case2 a a1 hsome ih =>
+    rcases scanIter_rel bs c0 a a' h with ⟨h1, _, _⟩ | ⟨a2, a2', h1, h2, hrel⟩
+    · rw [hsome] at h1; cases h1
+    · rw [hsome] at h1; cases h1
+      rw [ih a2' hrel]
+      congr 1
+      conv => rhs; rw [childScan]
+      split
+      · rename_i h'; rw [h2] at h'; cases h'
+      · rename_i a3 h'; rw [h2] at h'; cases h'; rfl
+
+theorem p1Step_seen (a : P1) (e : Desc) : (p1Step a e).seen = e.dig :: a.seen := by
+  unfold p1Step
+  split <;> split <;> (try split) <;> (try split) <;> rfl
+
+theorem p1Step_scan (a : P1) (e : Desc) : (p1Step a e).scan = if isIndexMt e.mt = true then a.scan ++ [e] else a.scan := by
+  unfold p1Step
+  cases hm : isIndexMt e.mt
+  · simp only [Bool.false_eq_true, if_false]
+    split <;> (try split) <;> (try split) <;> rfl
+  · simp only [if_true]
+    split <;> (try split) <;> (try split) <;> rfl
+
+theorem pass1_persist : ∀ (ms : List Desc) (a a' : P1), a'.seen = a.seen → a'.scan.map (·.dig) = a.scan.map (·.dig) →
+    ((ms.map persistDesc).foldl p1Step a').seen = (ms.foldl p1Step a).seen ∧
+    ((ms.map persistDesc).foldl p1Step a').scan.map (·.dig) = (ms.foldl p1Step a).scan.map (·.dig) := by
+  intro ms
+  induction ms with
+  | nil => intro a a' h1 h2; exact ⟨h1, h2⟩
+  | cons e es ih =>
+    intro a a' h1 h2
+    simp only [List.map_cons, List.foldl_cons]
+    have hmt : (persistDesc e).mt = e.mt := by unfold persistDesc; split <;> rfl
+    apply ih
+    · rw [p1Step_seen, p1Step_seen, persistDesc_dig, h1]
+    · rw [p1Step_scan, p1Step_scan, hmt]
+      cases hm : isIndexMt e.mt
+      · simp only [Bool.false_eq_true, if_false]; exact h2
+      · simp only [if_true, List.map_append, List.map_cons, List.map_nil, persistDesc_dig, h2]
+
+/-- the state on which the child scan runs -/
+def scanBase (nm : List Desc → String) (order : List (String × List Desc) → List (String × List Desc)) (x : IState) : IState :=
+  if x.converted then x else convert nm order x
+
+theorem ingest_children (nm : List Desc → String) (order : List (String × List Desc) → List (String × List Desc)) (x : IState) :
+    (ingest nm order x).index.children =
+      (childScan (scanBase nm order x).blobs
+        { queue := (pass1 (scanBase nm order x).index.manifests).scan,
+          seen := (pass1 (scanBase nm order x).index.manifests).seen,
+          children := (scanBase nm order x).index.children }).children := rfl
+
+theorem scanBase_children_nil (nm : List Desc → String) (order : List (String × List Desc) → List (String × List Desc))
+    (horder : ∀ l, (order l).Perm l) (x : IState) (hnb : NoBoth x.index.manifests) (hch : x.index.children = [])
+    (hne : lookup x.blobs "" = none) : (scanBase nm order x).index.children = [] := by
+  unfold scanBase
+  cases hc : x.converted with
+  | true => simp only [if_true]; exact hch
+  | false =>
+    simp only [Bool.false_eq_true, if_false]
+    rw [convert_eq]
+    simp only
+    have inv := phase1_invA x hnb hch
+    obtain ⟨hk1, hk2⟩ := perm_keys horder (phase1 x).addResp inv.ks
+    have r := regenFold_keeps nm (phase1 x).respOf (order (phase1 x).addResp)
+      { x with index := (phase1 x).index } hk1 hk2 inv.nb inv.ch
+    change _ ∧ _ ∧ _ ∧ _ ∧ _ ∧ _ at r
+    have hfold : (order (phase1 x).addResp).foldl (regenStep nm (phase1 x).respOf) { x with index := (phase1 x).index } =
+        convState nm order x := rfl
+    rw [hfold] at r
+    obtain ⟨r1, r2, _⟩ := r
+    obtain ⟨_, _, _, _, _, _, m7⟩ := rmFold_spec (phase1 x).rm _ (rmOk_of_invA inv hne) r1
+    rw [m7, r2]
+
+/-- C17, "repeating the conversion gives the same result", for the child records: what is recorded right after the
+    conversion is what a load of the saved index records -/
+theorem convert_idem_children_main (nm nm' : List Desc → String)
+    (order order' : List (String × List Desc) → List (String × List Desc)) (horder : ∀ l, (order l).Perm l)
+    (x : IState) (hnb : NoBoth x.index.manifests) (hch : x.index.children = []) (hne : lookup x.blobs "" = none) :
+    (ingest nm' order' (persist (ingest nm order x))).index.children = (ingest nm order x).index.children := by
+  have hconv : (persist (ingest nm order x)).converted = true := ingest_converted_true nm order x
+  have hbase : scanBase nm' order' (persist (ingest nm order x)) = persist (ingest nm order x) := by
+    unfold scanBase; rw [hconv]; rfl
+  rw [ingest_children nm' order', hbase, ingest_children nm order x]
+  have hnil := scanBase_children_nil nm order horder x hnb hch hne
+  have hman : (persist (ingest nm order x)).index.manifests = (scanBase nm order x).index.manifests.map persistDesc := by
+    rw [persist_manifests]; rfl
+  have hbl : (persist (ingest nm order x)).blobs = (scanBase nm order x).blobs := rfl
+  have hchl : (persist (ingest nm order x)).index.children = [] := rfl
+  rw [hman, hbl, hchl, hnil]
+  obtain ⟨p1, p2⟩ := pass1_persist (scanBase nm order x).index.manifests {} {} rfl rfl
+  have := childScan_rel (scanBase nm order x).blobs []
+    { queue := (pass1 (scanBase nm order x).index.manifests).scan,
+      seen := (pass1 (scanBase nm order x).index.manifests).seen, children := [] }
+    { queue := (pass1 ((scanBase nm order x).index.manifests.map persistDesc)).scan,
+      seen := (pass1 ((scanBase nm order x).index.manifests.map persistDesc)).seen, children := [] }
+    ⟨p1, p2, rfl⟩
+  rw [this]; rfl
 end Upd
